@@ -102,6 +102,8 @@ def shapes(tier):
                         "pool": 1, "n_prior": N - 1})
             out.append({"mode": "api", "N": N, "n_lin": 1, "kmax": "sym", "in_memory": False, "src": src, "randomize": src == "object", "n_batches": None,
                         "pool": 1, "n_prior": N - 1})
+            out.append({"mode": "api", "N": N, "n_lin": 1, "kmax": "none", "in_memory": False, "src": src, "randomize": False, "n_batches": None,
+                        "pool": 0, "n_prior": N - 1})
     # call histories: an earlier call on another library under the same file name / in the same JokerSamples object
     for N in ([2] if tier == "quick" else [2, 3]):
         out.append({"mode": "file", "N": N, "n_lin": 1, "kmax": "none", "n_batches": 2, "randomize": False, "n_prior": None, "src": "filename",
@@ -337,9 +339,11 @@ def run_shape(shape, tier, focus="C02"):
     S = groupa.Setup(with_api=(shape["mode"] == "api"))
     logprobs = focus == "C06"
     all_lp = focus == "C06" and shape.get("n_lin", 1) == 1
-    if logprobs and shape["n_lin"] > 1:
-        logprobs = False  # length mismatch raises in astropy; outside C06's claim (no rows returned)
-        all_lp = True
+    multi_lin_logprobs = logprobs and shape["n_lin"] > 1
+    if multi_lin_logprobs:
+        # the current code cannot attach one value per accepted sample to n_linear_samples rows per sample: astropy refuses the column
+        # (ValueError) and no rows are returned -- accepted.  If rows ARE returned with the columns, every row must carry its own sample's values.
+        all_lp = False
 
     def harness():
         return run_harness(S, shape, logprobs=logprobs, all_logprobs=all_lp)
@@ -350,6 +354,11 @@ def run_shape(shape, tier, focus="C02"):
         core.Ctx.cur = path.ctx   # spec terms may create side symbols
         try:
             if path.raised is not None:
+                if multi_lin_logprobs and isinstance(path.raised, ValueError):
+                    sink.check(path, "multi_linear_logprobs_refused", core.SB(z3.BoolVal(True)), site=shape["mode"], describe=lambda m: {"raised": repr(path.raised)[:200]})
+                    r, _, _ = path.check(core.SB(z3.BoolVal(False)))
+                    twin = twin or r == "sat"
+                    continue
                 _raised(sink, path, shape, S)
                 r, _, _ = path.check(core.SB(z3.BoolVal(False)))
                 twin = twin or r == "sat"
@@ -415,13 +424,17 @@ def _c06_claims(sink, path, shape, info, rows, lps, lls, kept, ranks, desc, logp
         sink.check(path, "scalar_columns", core.SB(z3.BoolVal(bool(scal))), site=shape["mode"] + ".ln_prior_column", describe=desc)
         if scal:
             m = obs["n"] // nlin
-            cl = [z3.Sum([z3.If(k, 1, 0) for k in kept]) == m]
+            cl = [z3.Sum([z3.If(k, 1, 0) for k in kept]) == m, z3.BoolVal(len(obs["ln_likelihood"]) == obs["n"] and len(obs["ln_prior"]) == obs["n"])]
             for j in range(len(rows)):
                 for g in range(m):
                     if isinstance(lls[j], symnp.NonFinite):
                         continue       # a -inf sample is never kept
+                    if len(obs["ln_likelihood"]) != obs["n"] or len(obs["ln_prior"]) != obs["n"]:
+                        continue
+                    # every one of the n_linear_samples rows of the g-th kept sample carries that sample's values
                     cl.append(z3.Implies(z3.And(kept[j], ranks[j] == g),
-                                         z3.And(core.lift(obs["ln_likelihood"][g] == lls[j]), core.lift(obs["ln_prior"][g] == lps[j]))))
+                                         z3.And([z3.And(core.lift(obs["ln_likelihood"][g * nlin + t_] == lls[j]), core.lift(obs["ln_prior"][g * nlin + t_] == lps[j]))
+                                                 for t_ in range(nlin)])))
             sink.check(path, "attached", core.SB(z3.And(cl)), site=shape["mode"], describe=desc, prefer=pref)
     if all_lp:
         al = info["all_ll"]
@@ -568,8 +581,8 @@ def _replay_once(cand, focus, shift):
         else:
             fill(prior, lib, lnp)
         prior.write(fn, overwrite=True)
-        logprobs = focus == "C06" and nlin == 1
-        all_lp = focus == "C06"
+        logprobs = focus == "C06"
+        all_lp = focus == "C06" and nlin == 1
         mode = shape["mode"]
         import schwimmbad
         import thejoker.thejoker as tjm
@@ -629,6 +642,8 @@ def _replay_once(cand, focus, shift):
         except Exception as e:
             if mode == "file" and shape.get("n_prior") is not None and shape["n_prior"] > N and isinstance(e, ValueError):
                 return {"reproduced": False, "detail": "raised the documented ValueError"}
+            if logprobs and nlin > 1 and isinstance(e, ValueError):
+                return {"reproduced": False, "detail": "n_linear_samples > 1 with return_logprobs refused (no rows returned)"}
             return {"reproduced": True, "detail": "real call raised %s: %s" % (type(e).__name__, str(e)[:300])}
         all_ll = None
         if all_lp:
@@ -674,7 +689,7 @@ def _replay_once(cand, focus, shift):
         elif focus == "C06":
             perm, acc = explained
             if logprobs:
-                for name, want in (("ln_likelihood", [ll_eval[j] for j in acc]), ("ln_prior", [lnp[order[j]] for j in acc])):
+                for name, want in (("ln_likelihood", list(np.repeat([ll_eval[j] for j in acc], nlin))), ("ln_prior", list(np.repeat([lnp[order[j]] for j in acc], nlin)))):
                     if name not in out.tbl.colnames:
                         bad.append("%s column missing" % name)
                         continue
